@@ -14,6 +14,7 @@ import os
 
 import numpy as np
 
+from vf import bigcases
 from vf import core
 from vf import solverlib as sl
 
@@ -195,3 +196,4 @@ def run(ctx):
     ctx.cov["reciprocity_pairs_compared"] = int(sum(r.get("obs", {}).get("pairs", 0) for r in res))
     ctx.cov["configs_with_incommensurate_halo"] = int(sum(1 for r in res if r.get("obs", {}).get("incommensurate_halo")))
     ctx.cov["worst_rel_err"] = max([r.get("obs", {}).get("worst_rel_err", 0) for r in res] + [0])
+    bigcases.run(ctx, "C02")
